@@ -68,7 +68,7 @@ fn pdu_area(e: &FrameElement<DATA>) -> &[u8] {
     &e.ethernet_frame[16..]
 }
 
-//@h name=rx_first_pdu props=C01 fn=src/pdu_loop/frame_element/received_frame.rs::ReceivedFrame::first_pdu obligation="first_pdu(h) on ANY buffer contents: Ok(v) => header command = h.command_code, index = h.pdu_idx, v views exactly bytes [10, 10+len) of the PDU area, v.len() = length field, counter = the two bytes after the data, all inside the slot; mismatches give the documented errors; never a panic"
+//@h name=rx_first_pdu props=C01 fn=src/pdu_loop/frame_element/received_frame.rs::ReceivedFrame::first_pdu obligation="first_pdu(h) on ANY buffer contents: Ok(v) => header command = h.command_code, index = h.pdu_idx, v views exactly bytes [10, 10+len) of the PDU area, v.len() = length field, counter = the two bytes after the data, all inside the slot; a datagram that fits the area (exact fit included) with the expected command and index IS delivered; a wrong command gives Decode, a wrong index InvalidIndex; never a panic"
 #[cfg_attr(kani, kani::proof)]
 #[cfg_attr(all(test, verif_replay), test)]
 fn rx_first_pdu() {
@@ -91,9 +91,15 @@ fn rx_first_pdu() {
             core::mem::forget(v);
         }
         Err(err) => {
+            // completeness: a datagram that lies inside the PDU area - also one that fills it exactly - and carries the expected
+            // command code and index IS delivered; an error needs a reason
+            assert!(!(10 + len + 2 <= area_len && a[0] == hc && a[1] == hi), "a matching datagram that fits the area is delivered");
             if area_len >= len + 2 + 10 && a[0] == hc {
-                // only the index can be wrong (or the command byte encodes an invalid command)
-                assert!(a[1] != hi || err != Error::Pdu(PduError::InvalidIndex(a[1])));
+                // the command matches and the datagram fits: only the index can be wrong, and it is reported as such
+                assert!(a[1] != hi && err == Error::Pdu(PduError::InvalidIndex(a[1])));
+            }
+            if area_len >= len + 2 + 10 && a[0] != hc {
+                assert!(err == Error::Pdu(PduError::Decode));
             }
         }
     }
@@ -141,7 +147,10 @@ fn rx_pdu_iter_first() {
             assert!(v.working_counter == u16::from_le_bytes([a[10 + l0], a[10 + l0 + 1]]));
             core::mem::forget(v);
         }
-        Some(Err(_)) => assert!(used != 0),
+        Some(Err(_)) => {
+            assert!(used != 0);
+            assert!(!(10 + l0 + 2 <= area_len), "a first datagram that fits the PDU area (exact fit included) is delivered");
+        }
     }
     core::mem::forget(it);
 }
